@@ -29,9 +29,13 @@ THEOREMS = [
 ]
 RULE = ("generated importable module: interface DAG of 1..5 interfaces (<= 2 bases, some in C3-inconsistent "
         "order), 1..4 classes (<= 2 bases, multiple inheritance), 0..3 instances with plain attributes; history "
-        "of 0..7 class-level operations (classImplements/implementer, classImplementsOnly/implementer_only, "
-        "classImplementsFirst, directlyProvides(cls)/provider) and 0..6 instance operations (directlyProvides, "
-        "alsoProvides, gc.collect) either module-ordered or interleaved; every interface, class, class "
+        "of 0..8 class-level operations (classImplements/implementer, classImplementsOnly/implementer_only, "
+        "classImplementsFirst, directlyProvides(cls)/provider, alsoProvides(cls)/directlyProvides(cls, "
+        "directlyProvidedBy(cls), ..), noLongerProvides(cls)) and 0..6 instance operations (directlyProvides, "
+        "alsoProvides, noLongerProvides, gc.collect) either module-ordered or interleaved; in a third of the cases "
+        "one class is a built-in type (complex, frozenset, bytearray, slice, range, memoryview; its declarations are "
+        "dropped from BuiltinImplementationSpecifications before and after the case); a quarter of the argument "
+        "lists pass a slice wrapped in a Declaration(...); every interface, class, class "
         "specification, class provides, instance provides and instance round-tripped with protocols 0..5 in the "
         "same process and into a fresh process; a case is non-trivial when some class specification or "
         "provides-declaration declares at least one interface; distinct = distinct set of shape tags")
@@ -58,6 +62,9 @@ def _subset(rng, n, kmax, allow_dup=False):
     return xs
 
 
+BUILTIN_TYPES = ["complex", "frozenset", "bytearray", "slice", "range", "memoryview"]
+
+
 def _gen_world(rng):
     ni = rng.choice([1, 2, 3, 3, 4, 4, 5, 5, 5])
     ifaces = []
@@ -73,9 +80,15 @@ def _gen_world(rng):
         if c and not bs and rng.random() < 0.6:
             bs = [rng.randrange(c)]
         classes.append(bs)
-    insts = [[rng.randrange(nc), [rng.randint(-5, 300) for _ in range(rng.randint(0, 2))]]
-             for _ in range(rng.choice([0, 1, 2, 2, 3]))]
-    return ifaces, classes, insts
+    builtin = {}
+    if rng.random() < 0.35:
+        # the last class is a built-in type (never a base, never instantiated here)
+        classes[-1] = []
+        builtin[str(nc - 1)] = rng.choice(BUILTIN_TYPES)
+    plain = [c for c in range(nc) if str(c) not in builtin]
+    insts = [[rng.choice(plain), [rng.randint(-5, 300) for _ in range(rng.randint(0, 2))]]
+             for _ in range(rng.choice([0, 1, 2, 2, 3]))] if plain else []
+    return ifaces, classes, insts, builtin
 
 
 def _ifs(rng, ni, lo=1):
@@ -86,37 +99,66 @@ def _ifs(rng, ni, lo=1):
     return xs
 
 
+def _wrap(rng, xs):
+    """Optionally pass a slice of the interfaces wrapped in one Declaration(...) (distinct members)."""
+    if len(xs) < 1 or rng.random() > 0.25:
+        return []
+    start = rng.randrange(len(xs))
+    ln = rng.randint(1, len(xs) - start)
+    grp = xs[start:start + ln]
+    if len(set(grp)) != len(grp):
+        return []
+    return [[start, ln]]
+
+
 def _gen_case(rng, force=None):
-    ifaces, classes, insts = _gen_world(rng)
+    ifaces, classes, insts, builtin = _gen_world(rng)
     ni, nc = len(ifaces), len(classes)
+    plain = [c for c in range(nc) if str(c) not in builtin]
     cops = []
-    for _ in range(rng.randint(0, 7)):
-        kind = rng.choice(["impl", "impl", "only", "only", "first", "cprov"])
+    for _ in range(rng.randint(0, 8)):
+        kind = rng.choice(["impl", "impl", "only", "only", "first", "cprov", "cprov", "cap", "cap", "cnl"])
         c = rng.randrange(nc)
+        if kind in ("cprov", "cap", "cnl"):
+            if not plain:
+                continue
+            c = rng.choice(plain)       # a built-in type cannot carry __provides__
         if kind == "first":
             cops.append(["first", c, rng.randrange(ni)])
+        elif kind == "cnl":
+            cops.append(["cnl", c, rng.randrange(ni)])
         elif kind == "cprov":
-            cops.append(["cprov", c, _ifs(rng, ni, 0), rng.random() < 0.5])
+            xs = _ifs(rng, ni, 0)
+            cops.append(["cprov", c, xs, rng.random() < 0.5] + _wrap(rng, xs))
+        elif kind == "cap":
+            xs = _ifs(rng, ni, 1)
+            cops.append(["cap", c, xs, rng.random() < 0.5] + _wrap(rng, xs))
         else:
-            cops.append([kind, c, _ifs(rng, ni, 0 if kind == "only" else 1), rng.random() < 0.5])
+            xs = _ifs(rng, ni, 0 if kind == "only" else 1)
+            # classImplementsOnly keeps a Declaration argument as one opaque base (it does not
+            # normalise): outside the model, so only classImplements gets wrapped arguments
+            cops.append([kind, c, xs, rng.random() < 0.5] + (_wrap(rng, xs) if kind == "impl" else []))
     if force == "only":
         c = nc - 1
         cops.insert(rng.randint(0, len(cops)), ["only", c, _ifs(rng, ni, 0), rng.random() < 0.5])
     iops = []
     if insts:
         for _ in range(rng.randint(0, 6)):
-            kind = rng.choice(["dp", "dp", "ap", "ap", "gc"])
+            kind = rng.choice(["dp", "dp", "ap", "ap", "nl", "gc"])
             if kind == "gc":
                 iops.append(["gc"])
+            elif kind == "nl":
+                iops.append(["nl", rng.randrange(len(insts)), rng.randrange(ni)])
             else:
-                iops.append([kind, rng.randrange(len(insts)), _ifs(rng, ni, 0 if kind == "dp" else 1)])
+                xs = _ifs(rng, ni, 0 if kind == "dp" else 1)
+                iops.append([kind, rng.randrange(len(insts)), xs, rng.random() < 0.3] + _wrap(rng, xs))
     if rng.random() < 0.6:
         ops = cops + iops
     else:
         ops = cops + iops
         rng.shuffle(ops)
     ops += [["iby", c] for c in range(nc)]
-    return {"ifaces": ifaces, "classes": classes, "insts": insts, "ops": ops}
+    return {"ifaces": ifaces, "classes": classes, "insts": insts, "ops": ops, "builtin": builtin}
 
 
 def generate(run, tier):
@@ -139,6 +181,21 @@ def generate(run, tier):
                                           ["ap", 1, [0]]]
         ops += [["iby", c] for c in range(4)]
         cases.append(dict(base, ops=ops))
+    # built-in types as classes (every shape), class-provides built with alsoProvides / noLongerProvides /
+    # the directlyProvides(cls, directlyProvidedBy(cls), ..) idiom, Declaration(...) arguments
+    bbase = {"ifaces": [[], [0], [], [1, 2]], "classes": [[], [0], [], []], "insts": [[1, [3]]],
+             "builtin": {"2": "complex", "3": "frozenset"}}
+    for shape in (
+        [["only", 2, [1], False], ["impl", 3, [2], False]],
+        [["only", 2, [], True], ["only", 3, [3, 0], True], ["first", 2, 2]],
+        [["impl", 2, [0, 2], False, [0, 2]], ["first", 3, 1], ["only", 3, [2], False]],
+        [["cprov", 0, [0], True], ["cap", 0, [2], False], ["cprov", 1, [1, 2], False], ["cnl", 1, 2]],
+        [["cap", 1, [3], True], ["cap", 1, [0, 2], False, [0, 2]], ["cnl", 1, 1], ["cprov", 0, [1, 2], False, [0, 2]]],
+    ):
+        ops = [list(o) for o in shape] + [["dp", 0, [0, 2], False, [0, 2]], ["ap", 0, [1], True], ["nl", 0, 2],
+                                          ["ap", 0, [3], False, [0, 1]]]
+        ops += [["iby", c] for c in range(4)]
+        cases.append(dict(bbase, ops=ops))
     for k in range(n):
         cases.append(_gen_case(rng, force="only" if k % 4 == 0 else None))
     return cases
@@ -189,6 +246,12 @@ def _op(op):
         return "(OpClassProvides %d %s)" % (op[1], _lnat(op[2]))
     if k == "iby":
         return "(OpImplementedBy %d)" % op[1]
+    if k == "cap":
+        return "(OpClassAlsoProvides %d %s)" % (op[1], _lnat(op[2]))
+    if k == "cnl":
+        return "(OpClassNoLongerProvides %d %d)" % (op[1], op[2])
+    if k == "nl":
+        return "(OpNoLongerProvides %d %d)" % (op[1], op[2])
     if k == "dp":
         return "(OpDirectlyProvides %d %s)" % (op[1], _lnat(op[2]))
     if k == "ap":
@@ -225,13 +288,14 @@ def _obs_groups(obs_list):
 def coq_case(case, obs, mode):
     if "items" not in obs:
         # the case could not be built at all: an empty observation list fails both checks
-        world = "(mkWorld [] [] [])"
+        world = "(mkWorld [] [] [] [])"
         return "(%s, [], [mkItem (ItIface 0) RNone [] [] [] []])" % world
     names = obs["names"]
     world = "(mkWorld %s %s %s)" % (
         C.clist(["(%s, %s)" % (_gname(nm), _lnat(bs)) for nm, bs in zip(names["inames"], case["ifaces"])]),
         C.clist(["(%s, %s)" % (_gname(nm), _lnat(bs)) for nm, bs in zip(names["cnames"], case["classes"])]),
-        C.clist(["(%d, %s)" % (cl, C.clist([C.cZ(v) for v in attrs])) for cl, attrs in case["insts"]]))
+        C.clist(["(%d, %s)" % (cl, C.clist([C.cZ(v) for v in attrs])) for cl, attrs in case["insts"]])
+        + " " + _lnat(sorted(int(c) for c in case.get("builtin", {}))))
     ops = C.clist([_op(o) for o in case["ops"]])
     items = []
     for rec in obs["items"]:
@@ -251,8 +315,12 @@ def _tags(case, obs):
     for op in case["ops"]:
         if op[0] == "only":
             tags.add("only-sub" if op[1] in has_bases else "only-root")
-        elif op[0] in ("first", "impl", "cprov", "dp", "ap", "gc"):
+        elif op[0] in ("first", "impl", "cprov", "cap", "cnl", "nl", "dp", "ap", "gc"):
             tags.add(op[0])
+        if op[0] in ("impl", "only", "first") and str(op[1]) in case.get("builtin", {}):
+            tags.add("builtin-" + op[0])
+        if any(isinstance(e, list) for e in op[3:]):
+            tags.add("declaration-arg")
     for rec in obs["items"]:
         if rec["kind"] in ("impl", "cprov", "prov") and rec["before"]:
             tags.add(rec["kind"] + "+")
@@ -261,7 +329,7 @@ def _tags(case, obs):
             tags.add("inherited+")
     seen_inst = False
     for op in case["ops"]:
-        if op[0] in ("dp", "ap"):
+        if op[0] in ("dp", "ap", "nl"):
             seen_inst = True
         elif op[0] in ("impl", "only", "first") and seen_inst:
             tags.add("interleaved")
@@ -307,17 +375,21 @@ def finding_key(case, obs, mode):
     return "c13-%s-%s-%s" % (rec["kind"], shape, "exc" if not ob["ok"] else ("notsame" if not ob["same"] else "diff"))
 
 
-def _module_source(case):
-    # the very function of harness/drivers/c13_driver.py (that file cannot be imported here: it
+def _driver_ns():
+    # the very functions of harness/drivers/c13_driver.py (that file cannot be imported here: it
     # boots the scratch build on import)
     import os
     path = os.path.join(C.DRIVERS, "c13_driver.py")
     src = open(path).read()
-    start = src.index("def module_source(case):")
+    start = src.index("def parse_op(op):")
     end = src.index("class Numbering")
     ns = {}
     exec(src[start:end], ns)
-    return ns["module_source"](case)
+    return ns
+
+
+def _module_source(case):
+    return _driver_ns()["module_source"](case)
 
 
 def replay_text(case, obs, mode):
@@ -327,14 +399,23 @@ def replay_text(case, obs, mode):
              "MODULE = r'''", _module_source(case), "'''",
              "import pickle, gc, zi_c13_case as m",
              "from zope.interface import implementedBy, providedBy, directlyProvides, alsoProvides",
+             "from zope.interface import noLongerProvides, directlyProvidedBy",
+             "from zope.interface.declarations import Declaration",
              "for f in m._CLASS_OPS: f()   # (the driver interleaves these with the instance operations below)",
              "insts = [%s]" % ", ".join("m.C%d()" % cl for cl, _ in case["insts"])]
+    ns = _driver_ns()
     for op in case["ops"]:
-        if op[0] == "dp":
-            lines.append("directlyProvides(insts[%d], %s)" % (op[1], ", ".join("m.I%d" % i for i in op[2])))
-        elif op[0] == "ap":
-            lines.append("alsoProvides(insts[%d], %s)" % (op[1], ", ".join("m.I%d" % i for i in op[2])))
-        elif op[0] == "gc":
+        kind, tgt, arg, alt, wrap = ns["parse_op"](op)
+        if kind == "dp":
+            lines.append("directlyProvides(insts[%d], %s)" % (tgt, ns["ifs_expr"](arg, wrap, "m.I%d")))
+        elif kind == "ap" and alt:
+            lines.append("directlyProvides(insts[%d], directlyProvidedBy(insts[%d]), %s)"
+                         % (tgt, tgt, ns["ifs_expr"](arg, wrap, "m.I%d")))
+        elif kind == "ap":
+            lines.append("alsoProvides(insts[%d], %s)" % (tgt, ns["ifs_expr"](arg, wrap, "m.I%d")))
+        elif kind == "nl":
+            lines.append("try: noLongerProvides(insts[%d], m.I%d)\nexcept ValueError: pass" % (tgt, arg))
+        elif kind == "gc":
             lines.append("gc.collect()")
     if fb is not None:
         rec, variant, ob = fb
